@@ -218,7 +218,8 @@ Proof. exact stripped_is_flop_run. Qed.
 Print Assumptions C09_stripped_is_flop_run.
 
 (* --- C09, sequential clause, about the model and the FLOP CIRCUIT ITSELF: inside the guards sequential_unroll RETURNS; its io map has the
-   D and Q pin of every flop under the flattened name and no other pin (ignored or not); every consistent valuation of the result carries
+   D and Q pin of every flop under the flattened name, every primary output under its own name and no other pin (ignored or not; such
+   pins are not even nodes of the stripped circuit); every consistent valuation of the result carries
    at io_map[ρ x][t] the value of node x of the flop circuit in cycle t of the cycle-accurate simulation `flop_run` (state = Q pins, next
    state = D pins) started from the values of the step-0 Q nodes, which are free inputs or the given constants (None / '0' / '1' / 'x' /
    per-flop dict); the flop data outputs are outputs exactly when add_flop_outputs, all other outputs are the per-step copies of the
@@ -233,7 +234,8 @@ Theorem C09_sequential_unroll_full : ∀ C n d q ign afo iv ru prefix CS sio,
   let ρ := pin_rho (kept_pins (c_g C) ign) in
   ∃ U m, sequential_unroll C n d q ign afo iv ru prefix = Ok (U, m) ∧ dom m = io_of (c_g CS) ∧
     (∀ b, b ∈ dom (c_bbs C) → ρ (Api.pin b d) = pre b d ∧ ρ (Api.pin b q) = pre b q ∧ pre b d ∈ dom m ∧ pre b q ∈ dom m) ∧
-    (∀ b bb p, c_bbs C !! b = Some bb → p ∈ bb_pinset bb → p ≠ d → p ≠ q → pre b p ∉ dom m) ∧
+    (∀ b bb p, c_bbs C !! b = Some bb → p ∈ bb_pinset bb → p ≠ d → p ≠ q → pre b p ∉ dom (c_g CS) ∧ pre b p ∉ dom m) ∧
+    (∀ o, o ∈ outputs (c_g C) → o ∉ bb_pins (c_g C) → ρ o = o ∧ o ∈ outputs (c_g CS) ∧ o ∈ dom m) ∧
     (∀ w, consistent (c_g U) w →
       let st := λ v, w (io_name (ρ v) prefix 0) in
       let ins := λ t i, w (io_name (ρ i) prefix t) in
